@@ -13,6 +13,7 @@ means in the property.
 import Schc.Proofs.CoapSemantic
 import Schc.Proofs.UnparseStack
 import Schc.Proofs.UnparseCompute
+import Schc.Proofs.Recipe
 
 namespace Schc
 
@@ -170,6 +171,15 @@ theorem C19_single_unparse (cs : ParserInst) (hc : cs.cls = "CoAPParser") (hsem 
       ∀ pl : ABuf, packetUnparse [cs] (pairs hm.fields ++ [(Gen.payloadId, pl)]) = .ok (pairs hs.fields ++ [(Gen.payloadId, pl)]) :=
   unparse_semantic_single cs hc hsem fuel b hside hs hp3 hwf
 
+/-- the dispatch of `PacketParser.unparse` in general — any number of header parsers, header classes repeated or not,
+    CoAP parsers in either mode: a field list made of one run per parser of the stack (every field of a run carries that
+    parser's name, the field right after it does not), followed by anything, is un-parsed run by run with each parser's
+    own `unparse`, and what follows is kept -/
+theorem C19_unparse_runs (ts : List (ParserInst × String × Compute.Fields)) (fs rest : Compute.Fields)
+    (hn : (ts.map (·.1)).mapM parserNameOf = .ok (ts.map (·.2.1))) (h : RunsOf fs ts rest) :
+    packetUnparse (ts.map (·.1)) fs = (unparseSegs (ts.map fun t => (t.1, t.2.2))).map (· ++ rest) :=
+  packetUnparse_runs ts fs rest hn h
+
 /-- whatever the shape of the stack — a header class listed twice or again after another header (IP in IP, IP in UDP
     in IP), next-header prediction —, as long as no CoAP parser is in semantic mode `PacketParser.unparse` is the
     identity: every field once, in the order given (each parser takes the leading run of fields carrying its name, the
@@ -185,6 +195,18 @@ example :
     let v : ABuf := ⟨[false, true, true, false], .left⟩
     packetUnparse [ip, udp, ip, udp] [("IPv6:Version", v), ("UDP:Length", v), ("IPv6:Hop Limit", v), ("UDP:Checksum", v), ("Payload", v)] =
       .ok [("IPv6:Version", v), ("UDP:Length", v), ("IPv6:Hop Limit", v), ("UDP:Checksum", v), ("Payload", v)] := by decide +kernel
+
+/-- the rules the `uroundtrip` correspondence stream derives from a parsed packet — for EVERY recipe string — lie within
+    the hypotheses of the round-trip theorems above: compression rules whose descriptors apply to every direction,
+    match the packet, and are lossless pairings that fit (compute only on fields with a registered compute function);
+    parsed field values are LEFT-padded slices shorter than 64 Kibit -/
+theorem C19_recipe_rules_fit (p : Packet) (recipe : String) (rid : ABuf)
+    (h : ∀ f ∈ p.fields, f.value.side = .left ∧ f.value.length < 65536) :
+    (Drv.recipeRule p.fields recipe rid).nature = .compression ∧
+    (∀ rf ∈ (Drv.recipeRule p.fields recipe rid).fields, Spec.dirApplies p.dir rf.dir = true) ∧
+    Spec.applicable p (Drv.recipeRule p.fields recipe rid) = true ∧
+    AllFitsC p.fields (Drv.recipeRule p.fields recipe rid).fields :=
+  recipeRule_ok p recipe rid h
 
 /-- non-vacuity of the stack theorems: IPv6 / UDP / CoAP GET with Uri-Path "a" and payload "abc" -/
 example :
